@@ -55,10 +55,8 @@ static int ref_bound_ok = 1;		/* the journal stays inside the stated bounds */
 static int ref_bad_revoke;		/* a committed revoke block claims more bytes than a block has */
 static unsigned ref_nrevoke_records, ref_nreplayed;
 
-#ifdef REF_LOG_REVOKES
 static unsigned long long ref_log_blk[REF_MAXR];	/* the records in log order */
 static unsigned ref_log_ord[REF_MAXR];
-#endif
 static unsigned long long ref_rev_blk[REF_MAXR];
 static unsigned ref_rev_ord[REF_MAXR];
 static unsigned ref_nrev;
@@ -200,13 +198,11 @@ static void ref_collect_revokes(void)
 #if FEAT_64BIT
 			blk = (blk << 32) | ref_be32(d + o + 4);
 #endif
-#ifdef REF_LOG_REVOKES
 			for (k = 0; k < REF_MAXR; k++)
 				if (k == ref_nrevoke_records) {
 					ref_log_blk[k] = blk;
 					ref_log_ord[k] = ref_steps[n].ord;
 				}
-#endif
 			ref_nrevoke_records++;
 			for (k = 0; k < REF_MAXR; k++)
 				if (k < ref_nrev && ref_rev_blk[k] == blk) {
